@@ -14,7 +14,7 @@ use crate::elem::POISON;
 
 pub const GUARD: usize = 64;
 pub const GUARD_BYTE: u8 = 0xFD;
-pub const VIRT_LIMIT: usize = 16 << 20;
+pub const VIRT_LIMIT: usize = 128 << 20;
 pub const VIRT_SIZE: usize = 512 << 10;
 
 pub const F_BAD_LAYOUT: u32 = 1; // invalid layout reached the allocator
